@@ -1,6 +1,6 @@
 (* C07 - Minimizer partition covers every k-mer exactly once with a true minimizer.  Statements only. *)
 From Coq Require Import NArith List Bool Arith.
-From DBG Require Import Spec.Dna Spec.ScanSpec Algo.Scan Check.ScanCheck Proofs.ScanProofs Proofs.ScanSweeps.
+From DBG Require Import Spec.Dna Spec.ScanSpec Algo.Scan Check.ScanCheck Proofs.ScanProofs Proofs.ScanSweeps Proofs.ScanCheckProofs.
 Import ListNotations.
 Open Scope nat_scope.
 
@@ -31,6 +31,13 @@ Proof. exact scan_raw_ok. Qed.
 Theorem C07_covered_once : forall (score : dna -> N) sq k p l, scan_ok score sq k p l -> covered_once sq k l.
 Proof. exact scan_ok_covered. Qed.
 
+(* The boolean checker run by the correspondence driver on the intervals the IMPLEMENTATION reports is sound:
+   given the true score of every p-mer position, acceptance implies clauses (a)-(f). *)
+Theorem C07_check_scan_sound : forall (score : dna -> N) sq k p scs l,
+  scs = map (fun j => score (sub j p sq)) (seq 0 (length sq + 1 - p)) ->
+  check_scan sq k p scs l = true -> scan_ok score sq k p l.
+Proof. exact check_scan_sound. Qed.
+
 (* The length claim (c) cannot hold without the guard 2k-p < 2^(width of `len`): on the same model with a
    4-bit length field, k = 9, p = 2 and 16 A's give ONE interval of reported length 0 (finding F7 is this at
    width 16: k = 32772, p = 8, 65536 A's). *)
@@ -50,5 +57,6 @@ Proof. exact scan_example_const. Qed.
 Print Assumptions C07_scan_spec.
 Print Assumptions C07_scan_raw_ok.
 Print Assumptions C07_covered_once.
+Print Assumptions C07_check_scan_sound.
 Print Assumptions C07_scan_len_wrap_refuted.
 Print Assumptions C07_nonvacuous_lex.
